@@ -15,7 +15,7 @@ from simv.tape import Tape
 
 ID = "C08"
 LEVEL = "exploration"
-QUICK_RUNS = 700
+QUICK_RUNS = 1200
 CHUNK = 8
 RULE = ("seed -> request (as C01, smaller) with or without an injected fault set; executed under engine configurations drawn "
         "from coerce_list_concurrently x coerce_parent_concurrently x {gather, sync} arguments coercer (plus per-field Resolver "
